@@ -149,4 +149,40 @@ theorem created_anytime_tracks_latest (ops : List Reg.Op) (s : Reg.S) (h : Reg.r
 example : (Reg.run Generated.regShape Reg.init [.update 1, .regBegin 7, .update 2, .regBegin 8]).map
     (fun s => (s.cache, s.handlers, s.applied 7, s.applied 8)) = some (some 2, [7, 8], some 2, some 2) := by decide
 
+/-! ## Re-delivery and empty updates (added in the last session) -/
+
+theorem mergeTables_nil (c : List (String × RTable)) : mergeTables c [] = c := by
+  simp [mergeTables]
+
+/-- merging the same update twice is merging it once (the control plane re-sends its state under a new version) -/
+theorem mergeTables_idem (c up : List (String × RTable)) : mergeTables (mergeTables c up) up = mergeTables c up := by
+  unfold mergeTables
+  rw [List.filter_append]
+  have h1 : up.filter (fun e => !(up.any (fun u => decide (u.1 = e.1)))) = [] := by
+    rw [List.filter_eq_nil_iff]
+    intro e he
+    have : up.any (fun u => decide (u.1 = e.1)) = true := by
+      rw [List.any_eq_true]; exact ⟨e, he, by simp⟩
+    simp [this]
+  rw [h1, List.nil_append, List.filter_filter]
+  simp
+
+/-- an update that carries no table leaves every installed policy as it was -/
+theorem empty_update_keeps_policies (ups : List RUp) (k : String) :
+    (run (ups ++ [[]])).pol k = (run ups).pol k := by
+  rw [retry_tracks_cache (ups ++ [[]]) k, retry_tracks_cache ups k]
+  have : (run (ups ++ [[]])).cache = (run ups).cache := by
+    simp only [run, List.foldl_append, List.foldl_cons, List.foldl_nil]
+    rw [cache_is_merge, mergeTables_nil]
+  rw [this]
+
+/-- **re-delivery of the same route tables changes no policy** -/
+theorem redelivery_idempotent (ups : List RUp) (up : RUp) (k : String) :
+    (run (ups ++ [up, up])).pol k = (run (ups ++ [up])).pol k := by
+  rw [retry_tracks_cache (ups ++ [up, up]) k, retry_tracks_cache (ups ++ [up]) k]
+  have : (run (ups ++ [up, up])).cache = (run (ups ++ [up])).cache := by
+    simp only [run, List.foldl_append, List.foldl_cons, List.foldl_nil]
+    rw [cache_is_merge, cache_is_merge, mergeTables_idem]
+  rw [this]
+
 end XdsVerif.Properties.C17
